@@ -2,7 +2,7 @@
 use serde::{Deserialize, Serialize};
 use serde_json::json;
 
-use crate::adv::{AttackCase, Fault, Target, panic_sig, run_attack, tampered_any};
+use crate::adv::{AttackCase, Fault, TapAction, TapSpec, Target, panic_sig, run_attack, tampered_any};
 use crate::checks::dump::and_circ;
 use crate::fw::{CaseInfo, Ctx, Fail, Tier, enumerate, hash_of};
 use crate::run::{Adversary, MpcCase, run_mpc};
@@ -111,6 +111,25 @@ pub fn enumerate_cases(base: &MpcCase, corrupt: usize, tree_cap: usize, full: bo
             }
         }
     }
+    // below the encryption: a corrupted garbler knows the row keys, so the plaintext of a garbled
+    // row is attacker-chosen as well (every row of every gate, or one row only)
+    if corrupt != base.p_eval {
+        let mut acts = vec![];
+        for k in 0..=n + 1 {
+            acts.push(TapAction::RowMacs(k));
+        }
+        let plain_len = 9 + 16 * n + 16;
+        for bm in byte_muts(plain_len) {
+            acts.push(TapAction::Bytes(bm));
+        }
+        acts.push(TapAction::Bytes(ByteMut::LenPrefix { offset: 1, k: 40 }));
+        acts.push(TapAction::Bytes(ByteMut::LenPrefix { offset: 1, k: 62 }));
+        acts.push(TapAction::Bytes(ByteMut::LenPrefix { offset: 1, k: 1 }));
+        acts.push(TapAction::XorBytes(vec![2]));
+        for a in acts {
+            cases.push(Case { attack: AttackCase { taps: vec![TapSpec { site: "garble_plain".into(), idx: None, action: a }], ..AttackCase::honest(base.clone(), corrupt) }, label: "garbled row plaintext".into(), honest_peak });
+        }
+    }
     for k in 0..=mine.len() {
         cases.push(Case {
             attack: AttackCase { crash_after: Some(k), ..AttackCase::honest(base.clone(), corrupt) },
@@ -125,7 +144,10 @@ pub fn test_case(case: &Case) -> Result<CaseInfo, Fail> {
     let run = run_attack(&case.attack, &ExecCfg { record_probes: false, step_budget: 400_000 });
     let res = &run.res;
     let corrupt = case.attack.corrupt;
-    let mclass = case.attack.faults.first().map(|f| tree_mut_name(&f.mutation)).unwrap_or_else(|| "crash".into());
+    let mclass = case.attack.faults.first().map(|f| tree_mut_name(&f.mutation)).unwrap_or_else(|| match case.attack.taps.first() {
+        Some(t) => format!("plain:{}", format!("{:?}", t.action).split(['(', ' ', '{']).next().unwrap_or("")),
+        None => "crash".into(),
+    });
     let mut undecided = false;
     for p in case.attack.honest_parties() {
         match &res.outcomes[p] {
@@ -151,12 +173,12 @@ pub fn test_case(case: &Case) -> Result<CaseInfo, Fail> {
     if res.alloc_peak > bound {
         return Err(Fail::new(format!("C08|alloc|{}", case.label), format!("allocation peak {} exceeds honest peak {} + 64*{} delivered bytes + 4MiB", res.alloc_peak, case.honest_peak, delivered)));
     }
-    let nontrivial = tampered_any(&res.msgs) && res.msgs.iter().any(|m| m.tampered && m.delivered) || case.attack.crash_after.is_some() || matches!(case.attack.faults.first().map(|f| &f.mutation), Some(MsgMut::Drop));
+    let nontrivial = tampered_any(&res.msgs) && res.msgs.iter().any(|m| m.tampered && m.delivered) || case.attack.crash_after.is_some() || !case.attack.taps.is_empty() || matches!(case.attack.faults.first().map(|f| &f.mutation), Some(MsgMut::Drop));
     let outcome_class: Vec<&str> = case.attack.honest_parties().iter().map(|p| res.outcomes[*p].class()).collect();
     Ok(CaseInfo {
         nontrivial: nontrivial.then(|| hash_of(&serde_json::to_string(&case.attack).unwrap())),
         classes: vec![format!("mut={mclass}"), format!("label={}", case.label), format!("outcome={}", outcome_class.join("+")), format!("n={}", case.attack.base.n())],
-        sample: Some(json!({"n": case.attack.base.n(), "corrupt": corrupt, "p_eval": case.attack.base.p_eval, "label": case.label, "fault": case.attack.faults, "crash_after": case.attack.crash_after, "outcomes": outcome_class})),
+        sample: Some(json!({"n": case.attack.base.n(), "corrupt": corrupt, "p_eval": case.attack.base.p_eval, "label": case.label, "fault": case.attack.faults, "taps": case.attack.taps, "crash_after": case.attack.crash_after, "outcomes": outcome_class})),
         undecided,
         ..Default::default()
     })
@@ -164,7 +186,7 @@ pub fn test_case(case: &Case) -> Result<CaseInfo, Fail> {
 
 pub fn run(tier: Tier, seed: u64) -> i32 {
     let ctx = Ctx::new("C08", tier, seed, "fault_enumeration");
-    ctx.set_rule("systematic enumeration: for every message index of the corrupted sender (n=2: both parties x both evaluator choices; n=3: sampled role assignments, all in thorough) x every byte-level mutator (empty, truncations, bit flips, random, extend, length-prefix := 2^k, all-ones) x every structure-aware mutator on the decoded value tree (leaf flips/sets/random, Option toggles, sequence length -1/+1/0/1 and end swaps at every nesting level; long sequences at first/middle/last element) x drop x duplicate, plus crash of the peer before each of its messages; oracle: every honest party ends in Ok or Err - a panic, a wait on peers that have all terminated, or an allocation peak above honest peak + 64 x delivered bytes + 4 MiB (serde caps each pre-allocation at 1 MiB; <=3 nested sequence levels) is a violation; non-trivial = the altered bytes differ from the original and were delivered (or drop / crash); distinct by hash of the fault description");
+    ctx.set_rule("systematic enumeration: for every message index of the corrupted sender (n=2: both parties x both evaluator choices; n=3: sampled role assignments, all in thorough) x every byte-level mutator (empty, truncations, bit flips, random, extend, length-prefix := 2^k, all-ones) x every structure-aware mutator on the decoded value tree (leaf flips/sets/random, Option toggles, sequence length -1/+1/0/1 and end swaps at every nesting level; long sequences at first/middle/last element) x drop x duplicate, plus (corrupted garbler) the same byte-level mutators and every MAC-vector length 0..n+1 applied to the plaintext of its garbled rows before encryption (hook tap garble_plain), plus crash of the peer before each of its messages; oracle: every honest party ends in Ok or Err - a panic, a wait on peers that have all terminated, or an allocation peak above honest peak + 64 x delivered bytes + 4 MiB (serde caps each pre-allocation at 1 MiB; <=3 nested sequence levels) is a violation; non-trivial = the altered bytes differ from the original and were delivered (or drop / crash); distinct by hash of the fault description");
     ctx.assume("bounded time is bounded scheduler steps; CPU blow-ups inside one poll are only caught by the step budget (reported inconclusive)");
     ctx.assume("single corrupted party; the corrupted party otherwise runs the honest code");
     let mut all = vec![];
